@@ -200,6 +200,25 @@ inline Ref forwardLD(const Model& m) {
   return r;
 }
 
+// input class: does the forward recursion, carried with per-site normalisation as the rescaled algorithms do, meet a positive
+// per-site quantity e_i(j) * sum_k P(k,j) f_{i-1}(k) below 1e-290, i.e. one that a double cannot hold next to a normalised scale?
+// (With the emission values used here such quantities are either above 1e-215 or below 1e-395.)
+inline bool weightsBelowDoubleRange(const Model& m) {
+  std::vector<char> isStart(m.L, 0); isStart[0] = 1; for (size_t b : m.bp) isStart[b] = 1;
+  std::vector<LD> st = startVector(m), f(m.n, 0), q(m.n, 0);
+  for (size_t i = 0; i < m.L; ++i) {
+    LD s = 0;
+    for (size_t j = 0; j < m.n; ++j) {
+      LD x = 0; if (isStart[i]) x = st[j]; else for (size_t k = 0; k < m.n; ++k) x += f[k] * (LD)m.P[k][j];
+      q[j] = x * emis(m, i, j).v; s += q[j];
+      if (q[j] > 0 && q[j] < 1e-290L) return true;
+    }
+    if (!(s > 0)) return false;
+    for (size_t j = 0; j < m.n; ++j) f[j] = q[j] / s;
+  }
+  return false;
+}
+
 // a stationary vector of P (any closed class structure, periodic or not): rows of lim ((P+I)/2)^(2^k), averaged from the uniform start
 inline std::vector<double> stationary(const std::vector<std::vector<double>>& P) {
   size_t n = P.size(); std::vector<std::vector<LD>> Q(n, std::vector<LD>(n));
